@@ -1610,6 +1610,20 @@ where
         self.bump_generation();
     }
 
+    /// Ensures this TDS's generation counter is strictly greater than `floor`.
+    ///
+    /// Used when a whole TDS is swapped in for another one (initial-simplex bootstrap, heuristic
+    /// rebuild): the replacement starts its own counter near zero, so without this a
+    /// generation-keyed view created on the *old* TDS (e.g. a `ConvexHull`) could see an equal
+    /// generation on the new one and consider itself still valid.
+    #[inline]
+    pub(crate) fn advance_generation_past(&self, floor: u64) {
+        if self.generation.load(Ordering::Relaxed) <= floor {
+            self.generation
+                .store(floor.saturating_add(1), Ordering::Relaxed);
+        }
+    }
+
     // =========================================================================
     // QUERY OPERATIONS
     // =========================================================================
